@@ -37,7 +37,8 @@ ASSUMPTIONS = [
     "qq_depth be ignored; a qq_depth keyword overrides configured min/max).",
 ]
 MIN_NONTRIVIAL = {'quick': 3000, 'thorough': 60000}
-REQUIRED_MONITORS = ['roundtrip', 'unknown-name', 'channel:A=B', 'channel:A=C',
+REQUIRED_MONITORS = ['roundtrip', 'unknown-name',
+                     'unknown-name:config-attribute', 'channel:A=B', 'channel:A=C',
                      'channel:split', 'channel:cross',
                      'channel:K', 'channel:M', 'tract:A=B', 'tract:A=C',
                      'hook:PLSSParser.__init__', 'hook:TractParser.__init__']
@@ -504,7 +505,16 @@ def run_roundtrip(rng, ctx, pytrs):
                               f"{getattr(tb, k)!r}", dedup=k)
                 break
     if rng.random() < 0.15:
-        name = rng.choice(UNKNOWN)
+        if rng.random() < 0.5:
+            name = rng.choice(UNKNOWN)
+        else:
+            # A name that is an attribute or method of a Config object but
+            # not one of the sixteen settings is unknown all the same.
+            ctx.hit('unknown-name:config-attribute')
+            own = [n for n in dir(pytrs.Config(''))
+                   if n not in CF.ALL_SETTINGS]
+            name = rng.choice(own) + rng.choice(['', '.mine', '=1', '.True',
+                                                 '.2'])
         bad = (text + ',' + name) if text and rng.random() < 0.5 else name
         ctx.hit('unknown-name')
         ctx.case(bad, True, shape='unknown-name')
